@@ -317,6 +317,102 @@ static void reordered_reads(int qi, int ci, int nk, int bk, int style, int n, co
 	wire_len = save_len;
 }
 
+/* Forwarders that parse and re-serialise messages need not compress names: the same answer with every record's owner name
+   written out in full (instead of the pointer to the question) carries the same payload.  And a relay that loses one record
+   from the middle of an MX/SRV set leaves a gap in the preference sequence: "decoding stops at the first gap" - what the client
+   extracts then is a prefix of what it extracted from the complete set (or nothing), never other bytes. */
+static unsigned long long n_uncompressed_reads, n_gap_reads;
+
+static int rewrite_wire(int mode, int drop)
+{
+	/* mode 0: owner names uncompressed; mode 1: record `drop` removed */
+	static unsigned char tmp[sizeof(wire)];
+	int nrec, i, pos, o, qend, qnamelen;
+	if (wire_len < 12) return 0;
+	nrec = (wire[6] << 8) | wire[7];
+	if (nrec < 1 || nrec > 250) return 0;
+	pos = 12;
+	while (pos < wire_len && wire[pos]) pos += wire[pos] + 1;
+	qnamelen = pos + 1 - 12;
+	pos += 1 + 4;
+	qend = pos;
+	memcpy(tmp, wire, (size_t) qend);
+	o = qend;
+	for (i = 0; i < nrec; i++) {
+		int rdl;
+		if (pos + 12 > wire_len || wire[pos] != 0xC0 || wire[pos + 1] != 0x0C) return 0;
+		rdl = (wire[pos + 10] << 8) | wire[pos + 11];
+		if (pos + 12 + rdl > wire_len) return 0;
+		if (mode == 1 && i == drop) { pos += 12 + rdl; continue; }
+		if (mode == 0) {
+			if (o + qnamelen + 10 + rdl > (int) sizeof(tmp)) return 0;
+			memcpy(tmp + o, wire + 12, (size_t) qnamelen); o += qnamelen;
+			memcpy(tmp + o, wire + pos + 2, (size_t) (10 + rdl)); o += 10 + rdl;
+		} else {
+			memcpy(tmp + o, wire + pos, (size_t) (12 + rdl)); o += 12 + rdl;
+		}
+		pos += 12 + rdl;
+	}
+	if (pos != wire_len) {
+		/* (an additional section, e.g. OPT: kept as it is) */
+		if (o + (wire_len - pos) > (int) sizeof(tmp)) return 0;
+		memcpy(tmp + o, wire + pos, (size_t) (wire_len - pos)); o += wire_len - pos;
+	}
+	if (mode == 1) { tmp[6] = (unsigned char) ((nrec - 1) >> 8); tmp[7] = (unsigned char) ((nrec - 1) & 0xFF); }
+	memcpy(wire, tmp, (size_t) o);
+	wire_len = o;
+	return 1;
+}
+
+static void rewritten_reads(int qi, int ci, int nk, int bk, int style, int n, const unsigned char *straight, int rl)
+{
+	static unsigned char save[sizeof(wire)];
+	int save_len = wire_len, variant, nrec = wire_len >= 12 ? ((wire[6] << 8) | wire[7]) : 0;
+	memcpy(save, wire, (size_t) wire_len);
+	for (variant = 0; variant < 3; variant++) {
+		unsigned char *buf2;
+		struct query q;
+		int rl2, ok, drop = -1;
+		memcpy(wire, save, (size_t) save_len);
+		wire_len = save_len;
+		if (variant == 0) {
+			if (!rewrite_wire(0, 0)) continue;
+		} else {
+			if (!(QT[qi] == 15 || QT[qi] == 33) || nrec < 3) continue;
+			drop = variant == 1 ? 1 : nrec - 2;
+			if (variant == 2 && drop == 1) continue;
+			if (!rewrite_wire(1, drop)) continue;
+		}
+		buf2 = malloc((size_t) BUFSZ[bk]);
+		if (!buf2) exit(3);
+		memset(buf2, 0xEE, (size_t) BUFSZ[bk]);
+		memset(&q, 0, sizeof(q));
+		rl2 = drv_cli_read((char *) buf2, BUFSZ[bk], &q);
+		if (variant == 0) {
+			n_uncompressed_reads++;
+			ok = rl2 == rl && (rl <= 0 || !memcmp(buf2, straight, (size_t) (rl < BUFSZ[bk] ? rl : BUFSZ[bk])));
+		} else {
+			n_gap_reads++;
+			ok = rl2 <= 0 || (rl2 <= rl && !memcmp(buf2, straight, (size_t) (rl2 < BUFSZ[bk] ? rl2 : BUFSZ[bk])));
+		}
+		if (!ok) {
+			char key[80];
+			snprintf(key, sizeof(key), "C09:%s:%c:%s", QTN[qi], CODEC[ci], variant == 0 ? "uncompressed-owner-names" : "record-missing-from-the-middle");
+			if (variant == 0)
+				DRV_VIOL(key, "%s answer, codec %c: with the records' owner names written out instead of compressed the client extracted %d bytes%s, from the datagram as sent %d"
+					 "\tqtype=%s codec=%c n=%d style=%s name=%s buf=%d seed=%u",
+					 QTN[qi], CODEC[ci], rl2, rl2 == rl ? " (different ones)" : "", rl, QTN[qi], CODEC[ci], n, STYLE[style], NAMEKIND[nk], BUFSZ[bk], seed);
+			else
+				DRV_VIOL(key, "%s answer, codec %c: with record %d of %d lost on the way the client extracted %d bytes that are not a prefix of the %d it extracts from the complete answer"
+					 "\tqtype=%s codec=%c n=%d style=%s name=%s buf=%d seed=%u",
+					 QTN[qi], CODEC[ci], drop + 1, nrec, rl2, rl, QTN[qi], CODEC[ci], n, STYLE[style], NAMEKIND[nk], BUFSZ[bk], seed);
+		}
+		free(buf2);
+	}
+	memcpy(wire, save, (size_t) save_len);
+	wire_len = save_len;
+}
+
 /* "A (returning CNAME) queries may/will cause additional lookups by smart caching nameservers" (README): a recursive resolver
    chases the CNAME it gets for an A question, finds that the target does not exist, and hands the record on unchanged under
    RCODE NXDOMAIN with AA cleared and RA set (RFC 2308 2.1).  The payload is all there: the client extracts what it extracted
@@ -391,6 +487,8 @@ static void one_length(int qi, int ci, int n)
 					reordered_reads(qi, ci, nk, bk, style, n, buf, rl);
 				if (wire_len >= 0 && QT[qi] == 1 && rl > 0)
 					chased_read(qi, ci, nk, bk, style, n, buf, rl);
+				if (wire_len >= 0 && rl > 0 && (n % 7 == 2 || n > 150 && n % 3 == 0))
+					rewritten_reads(qi, ci, nk, bk, style, n, buf, rl);
 				free(buf);
 			}
 		}
@@ -417,6 +515,8 @@ static void report(int qi, int ci)
 	DRV_X("order_pass_cases", evals_order);
 	DRV_X("reads_with_reordered_records", n_reordered_reads);
 	DRV_X("reads_behind_a_cname_chasing_resolver", n_chased_reads);
+	DRV_X("reads_with_uncompressed_owner_names", n_uncompressed_reads);
+	DRV_X("reads_with_a_record_missing_from_the_middle", n_gap_reads);
 	DRV_X("multi_record_answers_reordered", n_reordered_multi);
 	for (nk = 0; nk < NNAME; nk++) for (bk = 0; bk < NBUF; bk++) for (st = 0; st < NSTYLE; st++) {
 		struct grp *g = &G[qi][ci][nk][bk][st];
